@@ -623,7 +623,7 @@ def reject_reason(step):
     return '%d:%s' % (st, code or '-')
 
 
-def c04_concurrent(req, resp, own, wit, res, final):
+def c04_concurrent(req, resp, own, wit, res, final, pid='C04'):
     """concurrent form of the first clause: the NET effect of all the commits
     made by a rejected request (first value before its first change of a key
     vs value after its last change of that key) is empty.  Only its own
@@ -665,8 +665,8 @@ def c04_concurrent(req, resp, own, wit, res, final):
             # be removed any more
             kinds = ['auto-created-consumer-adopted-by-other-writer']
         res.violation(
-            'C04|rejected-write-left-trace|%s|%s|%s' % (
-                step.rname(), reason, ','.join(kinds)),
+            '%s|rejected-write-left-trace|%s|%s|%s' % (
+                pid, step.rname(), reason, ','.join(kinds)),
             '%s rejected (%d, %s) under concurrency but its own commits '
             'changed: %s' % (step.rname(), resp.status, reason, net[:8]),
             dict(wit, net_effect=net[:20]))
